@@ -602,7 +602,8 @@ func c17Generated(c *Ctx) {
 		mkRule := func() []string {
 			r := []string{names[rng.Intn(len(names))], objs[rng.Intn(len(objs))], acts[rng.Intn(2)]}
 			if denyOv {
-				r = append(r, []string{"allow", "deny"}[rng.Intn(2)])
+				// a third of the rules carry an effect that is neither allow nor deny (indeterminate)
+				r = append(r, []string{"allow", "deny", "none"}[rng.Intn(3)])
 			}
 			return r
 		}
@@ -829,6 +830,27 @@ func c17DomainPatternOrders(c *Ctx) {
 			for _, oa := range [][2]string{{"data1", "read"}, {"data1", "write"}, {"data2", "read"}} {
 				reqsC = append(reqsC, []interface{}{"carol", dm, oa[0], oa[1]})
 			}
+		}
+		// every other round on an enforcer whose pattern domain holds no link of its own, so that the link added
+		// and removed is the pattern domain's only (and last) one
+		if i%2 == 0 {
+			e2, err := casbin.NewEnforcer(mpath)
+			if err != nil {
+				return
+			}
+			e2.AddNamedDomainMatchingFunc("g", "keyMatch2", util.KeyMatch2)
+			for _, j := range perm {
+				r := rules[j]
+				if r[len(r)-1] == "*" {
+					continue
+				}
+				if r[0] == "p" {
+					_, _ = e2.AddPolicy(r[1:])
+				} else {
+					_, _ = e2.AddGroupingPolicy(r[1:])
+				}
+			}
+			e = e2
 		}
 		before := c17Decisions(e, reqsC)
 		for _, l := range [][]string{{"carol", "reader", "*"}, {"carol", "writer", "domain2"}, {"carol", "reader", "domain3"}} {
